@@ -697,6 +697,114 @@ def random_form(rng, big=False) -> dict:
     return form
 
 
+# ----------------------------------------------------------------------------- repeats (any depth)
+
+
+def _parse_tree(rows):
+    """survey rows -> [node]; node = {"row", "kids": list|None, "end": row|None}"""
+    root, stack = [], []
+    cur = root
+    for r in rows:
+        t = " ".join(str(r.get("type", "")).split())
+        if t.startswith("begin "):
+            n = {"row": r, "kids": [], "end": None}
+            cur.append(n)
+            stack.append(cur)
+            cur = n["kids"]
+        elif t.startswith("end "):
+            if not stack:
+                raise ValueError("unbalanced")
+            parent = stack.pop()
+            parent[-1]["end"] = r
+            cur = parent
+        else:
+            cur.append({"row": r, "kids": None, "end": None})
+    if stack:
+        raise ValueError("unbalanced")
+    return root
+
+
+def _flatten(nodes, out):
+    for n in nodes:
+        out.append(n["row"])
+        if n["kids"] is not None:
+            _flatten(n["kids"], out)
+            out.append(n["end"])
+    return out
+
+
+def nest_repeats(rng, case: dict, max_depth: int = 3) -> dict:
+    """the same case with its rows nested in repeats: some groups become repeats, and runs of sibling rows are wrapped into
+    1..max_depth new nested sections (repeats mostly, sometimes a group) that carry their own per-language label cells in the
+    sheet's existing label columns.  Row keys stay "s<i>" of the new sheet; xpaths now pass through the repeats."""
+    cols = case["survey_cols"]
+    double = any("::" in h for h in cols)
+    label_cols = [h for h in cols if (read_header(h, double) or (None,))[0] == "label"]
+    hint_cols = [h for h in cols if (read_header(h, double) or (None,))[0] == "hint"]
+    tree = _parse_tree([dict(r) for r in case["survey"]])
+    counter = [0]
+
+    def mk_wrapper(kids):
+        k = counter[0]
+        counter[0] += 1
+        kind = "repeat" if rng.random() < 0.8 else "group"
+        row = {"type": "begin " + kind, "name": f"rep{k}"}
+        for h in label_cols:
+            if rng.random() < 0.6:
+                row[h] = f"R{k}|{h}"
+        # a hint written on a repeat/group row: never shown (sections have no <hint>), must not leak into any other element
+        if rng.random() < 0.3:
+            for h in hint_cols:
+                if rng.random() < 0.6:
+                    row[h] = f"RH{k}|{h}"
+        row = {h: row[h] for h in cols if h in row}
+        return {"row": row, "kids": kids, "end": {"type": "end " + kind}}
+
+    def walk(nodes, depth):
+        for n in nodes:
+            if n["kids"] is not None:
+                if n["row"]["type"].split() == ["begin", "group"] and rng.random() < 0.5:
+                    n["row"]["type"] = "begin repeat"
+                    n["end"]["type"] = "end repeat"
+                walk(n["kids"], depth + 1)
+        if nodes and rng.random() < (0.9 if depth == 0 else 0.4):
+            a = rng.randrange(len(nodes))
+            b = rng.randint(a + 1, len(nodes))
+            inner = nodes[a:b]
+            for _ in range(rng.randint(1, max_depth)):
+                inner = [mk_wrapper(inner)]
+            nodes[a:b] = inner
+
+    walk(tree, 0)
+    out = dict(case)
+    out["survey"] = _flatten(tree, [])
+    return out
+
+
+def deep_repeat_family():
+    """Directed family: one translated question under 1..6 nested repeats, each repeat with its own translated label; a select
+    with an itext list at the bottom."""
+    for depth in range(1, 7):
+        for dl in (None, "fr"):
+            rows = []
+            for d in range(depth):
+                r = {"type": "begin repeat", "name": f"r{d}"}
+                if d % 2 == 0:
+                    r["label"] = f"R{d}"
+                if d % 3 != 1:
+                    r["label::fr"] = f"R{d}fr"
+                rows.append(r)
+            rows.append({"type": "text", "name": "q", "label": "Q", "label::fr": "Qfr", "hint::en": "Hen"})
+            rows.append({"type": "select_one l", "name": "sel", "label::en": "Sen"})
+            rows += [{"type": "end repeat"} for _ in range(depth)]
+            cols = ["type", "name", "label", "label::fr", "hint::en", "label::en"]
+            rows = [{h: r[h] for h in cols if h in r} for r in rows]
+            yield {"survey_cols": cols, "survey": rows, "choices_cols": ["list_name", "name", "label", "label::fr"],
+                   "choices": [{"list_name": "l", "name": "a", "label": "A", "label::fr": "Afr"},
+                               {"list_name": "l", "name": "b", "label::fr": "Bfr"}],
+                   "settings": {"default_language": dl} if dl else {}, "arg_dl": None}
+
+
 def exhaustive_small(kinds=None, sheet="s"):
     """1 element × 1 kind × {unsuffixed, A, B}: all 8 subsets × all column orders of the kind's columns
     (type/name first) × default-language configurations × 2 delimiter styles.  Yields abstract forms."""
